@@ -31,8 +31,8 @@ def decor_invariant_statement : Prop :=
     styles: options and one level of sections; in all styles duplicate names, empty sections and empty
     values, values of any length, plain or needing quotes (blanks at the ends, `#`, quotes, backslashes,
     line feeds, bytes ≥ 0x80) — written with ANY valid decoration (blank and comment lines,
-    indentation, blanks around `=` and in front of `{`, trailing blanks and trailing comments, chosen
-    per line) is read back by `mpt_parse_node` as exactly its normal form: same nesting, same order,
+    indentation, blanks around `=` and in front of `{`, trailing blanks and trailing comments, comments
+    glued directly to a section name / brace, chosen per line) is read back by `mpt_parse_node` as exactly its normal form: same nesting, same order,
     same names, same values byte for byte. -/
 theorem roundtrip (style : Style) (d : Decor) (hd : d.ok) (f : Forest) (ha : admissible style f = true) :
     parseTree style (render style d f) = some (norm f) := by
@@ -114,6 +114,13 @@ example : (parseTree .sep (render .sep (decorOf 2) [.node (str "o") (some (str "
 example : (parseTree .bar (render .bar (decorOf 1) [.node (str "o") (some (str "1")) [],
       .node (str "s") none [.node (str "b") (some (str " v ")) []]])).map (flat 0)
     = some [(0, str "o", some (str "1")), (0, str "s", none), (1, str "b", some (str " v "))] := by
+  decide +kernel
+/-- a comment glued to the section name in the `|name` style -/
+example : render .bar (decorOf 4) [.node (str "s") none [.node (str "b") (some (str "1")) []]]
+    = str "|s# glued text\n\tb=1\n" := by decide +kernel
+example : (parseTree .bar (render .bar (decorOf 4) [.node (str "s") none [.node (str "b") (some (str "1")) []],
+      .node (str "t") none [.node (str "c") none []]])).map (flat 0)
+    = some [(0, str "s", none), (1, str "b", some (str "1")), (0, str "t", none), (1, str "c", none)] := by
   decide +kernel
 example : (parseTree .enc (render .enc (decorOf 3) [.node (str "o") (some (str "1")) [],
       .node (str "p") (some (str "#")) []])).map (flat 0)
